@@ -35,12 +35,13 @@ Definition dstep (zw : bool) (st : list (Z * hnode)) (r : drow) : list (Z * hnod
       let zero := if zw && negb launch && rt_has then [mkHE rn sn 0 2 (-2)] else [] in
       (set_last s en st, span ++ delay ++ zero, negb launch || rt_has)
   | DS s rt rt_end rt_has =>
+      (* a call that started before the analysed window has no nodes: no edge *)
       match last_of s st with
-      | Some n => (st, [mkHE n (mkHN rt false rt_end) 0 4 (-2)], rt_has)
+      | Some n => (st, (if rt_has then [mkHE n (mkHN rt false rt_end) 0 4 (-2)] else []), true)
       | None => (st, [], true)
       end
   | DC rt rt_end rt_has =>
-      (st, map (fun sn => mkHE (snd sn) (mkHN rt false rt_end) 0 4 (-2)) st, match st with [] => true | _ => rt_has end)
+      (st, (if rt_has then map (fun sn => mkHE (snd sn) (mkHN rt false rt_end) 0 4 (-2)) st else []), true)
   | DE => (st, [], true)
   end.
 
